@@ -33,6 +33,14 @@ def gridAxes (bb : List (Rat × Rat)) (step : List Rat) (center : Bool) : Except
   if ((limits bb center).zip st).any (fun (iv, s) => decide (((iv.2 + s - iv.1) / s).ceil < 0)) then throw .valueErr
   pure (((limits bb center).zip st).map (fun (iv, s) => axisNodes iv.1 iv.2 s))
 
+/-- `_make_sampling_grid(npoints, bounding_box, crpix)` (gwcs/wcs.py): the lattice on which the SIP fit samples the transform -
+    `npoints` nodes per axis asked for through the step `(lo - hi) / (1 - npoints)`, no centring, shifted by the reference pixel -/
+def samplingStep (n : Nat) (iv : Rat × Rat) : Rat := (iv.1 - iv.2) / (1 - (n : Rat))
+
+def samplingAxes (n : Nat) (bb : List (Rat × Rat)) (crpix : List Rat) (center : Bool := false) : Except Err (List (List Rat)) :=
+  (gridAxes bb (bb.map (samplingStep n)) center).map (fun axes =>
+    (axes.zip crpix).map (fun (ax, c) => ax.map (· - c)))
+
 /-- all index tuples `(k_0, …, k_{n-1})` in C order of the reversed shape: `k_0` fastest -/
 def indexTuples : List Nat → List (List Nat)
   | [] => [[]]
